@@ -101,13 +101,13 @@ CHECKS = {
          "Trusted: closed-form oracle in python; values within the scripts' positivity-threshold band are don't-care; table_smooth judged by local-average relations (its help gives no formula).",
          "DESIGN.md §5 C19"),
  "C05": ("exploration",
-         "runtime monitoring: controlled scheduler over hook events (seeded uniform/PCT/run-to-block/starve schedules) with online monitors (exclusion, exactly-once frames, merge order, real-deadlock verdict) + free-running csg_stat/csg_reupdate under ThreadSanitizer and ASan with seeded delays and offline event-log checker; outputs compared with --nt 1",
-         "The real CsgApplication (test subclass in-process; csg_stat and csg_reupdate as executables) is run under thousands of distinct thread interleavings chosen by a scheduler that owns every lock/unlock/start/join/reader/merge hook point; monitors over the event stream decide reader/merge exclusion, each-frame-once-in-order, merge order, join-before-EndEvaluate and deadlock (no enabled thread = verdict, not timeout); merged logs / output files are compared with the single-thread run; TSan watches the free-running executables. Interleavings are sampled, not enumerated.",
+         "runtime monitoring: controlled scheduler over hook events (context-bounded exhaustive DFS enumeration for small configurations + seeded uniform/PCT/run-to-block/starve schedules) with online monitors (exclusion, exactly-once frames, merge order, real-deadlock verdict) + free-running csg_stat/csg_reupdate under ThreadSanitizer and ASan with seeded delays and offline event-log checker; outputs compared with --nt 1",
+         "The real CsgApplication (test subclass in-process; csg_stat, csg_partial_rdf, csg_reupdate and csg_orientcorr as executables) is run under thousands of distinct thread interleavings chosen by a scheduler that owns every lock/unlock/start/join/reader/merge hook point, plus a systematic part: every interleaving with at most k preemptions of 16 (quick) / 20 (thorough) small configurations is enumerated by depth-first search over the scheduler decisions; monitors over the event stream decide reader/merge exclusion, each-frame-once-in-order, merge order, join-before-EndEvaluate and deadlock (no enabled thread = verdict, not timeout); merged logs / output files are compared with the single-thread run; TSan watches the free-running executables. Beyond the context-bounded small configurations interleavings are sampled, not enumerated.",
          "Trusted: hook placement (guarded by VOTCA_VERIF, commits in hooks.source_commits), the scheduler's mirror of mutex state, TSan with token-ring hand-over annotated as release/acquire and mutex-misuse reports off (the lock-in-one-thread/unlock-in-another idiom is not forbidden by the property). --begin not exercised.",
          "DESIGN.md §5 C05"),
  "C10": ("fault_enumeration",
          "runtime monitoring: offline exactly-once/no-loss/no-overwrite checker over per-execution ledgers (unique nonces) of multi-process x multi-thread runs of the real ProgObserver; pause points inside the critical section via hooks; crash-at-byte-N enumeration by an interposed write(); restart-pattern waves; ThreadSanitizer for thread-only runs",
-         "Histories of the real ProgObserver<std::vector<Job>>/Job I/O code driven by a stub calculator from 1..6 processes x 1..4 threads on one job file are recorded at the client boundary (start/done events with unique nonces) and judged offline against the parsed final job file; a process is held at hook points inside the load-merge-assign-write section while another synchronises; the process is killed after every byte offset of job-file and backup writes (exhaustive for the small configurations, sampled in the quick tier) and job-file-or-backup completeness plus recovery are judged. Sampled interleavings, enumerated crash points.",
+         "Histories of the real ProgObserver<std::vector<Job>>/Job I/O code driven by a stub calculator from 1..6 processes x 1..4 threads on one job file are recorded at the client boundary (start/done events with unique nonces) and judged offline against the parsed final job file; a process is held at hook points inside the load-merge-assign-write section while another synchronises; the process is killed after every byte offset of job-file and backup writes (exhaustive for the small configurations, sampled in the quick tier), also in its second synchronisation after a peer process has reported results in between (crash_peer), and job-file-or-backup completeness plus recovery are judged; restart patterns are run as a second wave and concurrently with a live worker. Sampled interleavings, enumerated crash points.",
          "Trusted: the stub replicates the 12-line worker loop of ParallelXJobCalc::JobOperator::Run (that TU needs libint2); crash model is process kill at write() granularity; ledger written with O_APPEND single writes; Python ElementTree as the parseability oracle.",
          "DESIGN.md §5 C10"),
 }
